@@ -3,3 +3,4 @@ import SqLemmas.LexLemmas
 import SqLemmas.MachineLemmas
 import SqLemmas.ParseSpec
 import SqLemmas.ParseComplete
+import SqLemmas.ParseLayout
